@@ -20,13 +20,20 @@ func VerifC20History() {
 	store := newVerifStore()
 	repo := NewPeerRepository(store, "")
 	ctx := ctxbg()
-	n := len(verifAddrs)
+	n := verifParam("addrs", len(verifAddrs))
+	nops := verifParam("ops", 6)
 	present := make([]bool, n)
 	score := make([]int32, n)
 	touched := make([]bool, n)
+	// what the stored file holds (nil: never saved)
+	var savedPresent []bool
+	var savedScore []int32
 	for s := 0; s < steps; s++ {
-		op := pick(fmt.Sprintf("op%d", s), 6)
-		k := pick(fmt.Sprintf("addr%d", s), n)
+		op := pick(fmt.Sprintf("op%d", s), nops)
+		k := 0
+		if op <= 2 {
+			k = pick(fmt.Sprintf("addr%d", s), n)
+		}
 		switch op {
 		case 0:
 			added, err := repo.Add(ctx, verifAddrs[k])
@@ -94,6 +101,8 @@ func VerifC20History() {
 			}
 			verifAssert(len(r2.list) == len(all), "save-load-changed-peer-count")
 			repo = r2
+			savedPresent = append([]bool(nil), present...)
+			savedScore = append([]int32(nil), score...)
 			verifReach("reloaded")
 		case 5:
 			repo.Clear(ctx)
@@ -101,6 +110,33 @@ func VerifC20History() {
 				present[j] = false
 			}
 			verifReach("cleared")
+		case 6: // Load into the repository that is in use, from storage in one of several conditions
+			full := store.data[peersDefaultPath]
+			have := len(full) >= 5
+			variant := pick(fmt.Sprintf("stored%d", s), 4)
+			for j := range present {
+				present[j] = false
+			}
+			switch {
+			case variant == 0 && have: // the file as saved
+				for j := range present {
+					present[j], score[j] = savedPresent[j], savedScore[j]
+				}
+			case variant == 1: // no file
+				delete(store.data, peersDefaultPath)
+				savedPresent, savedScore = nil, nil
+			case variant == 2 && have: // cut inside the 5 byte file header
+				c := pick(fmt.Sprintf("cut%d", s), 5)
+				store.data[peersDefaultPath] = full[:c]
+				savedPresent, savedScore = make([]bool, n), make([]int32, n)
+			case variant == 3 && have: // a version this code does not know
+				store.data[peersDefaultPath] = append([]byte{9}, full[1:]...)
+				savedPresent, savedScore = make([]bool, n), make([]int32, n)
+			default:
+				verifAssume(false)
+			}
+			repo.Load(ctx) // may report an error; the repository must stay usable either way
+			verifReach("loaded-in-place")
 		}
 		cnt := 0
 		for j := range present {
